@@ -152,3 +152,40 @@ def Overlay.stepAsFound (o : Overlay) : Op → Overlay × Res
   | op => o.step op
 
 end IdenaModel.Store
+
+namespace IdenaModel.Store
+
+/-! ### batches as objects: staging interleaved with other operations
+
+`backedMemBatch` buffers `Set`/`Delete` calls; only `Write` applies them (and marks their keys as touched).
+Reads between staging and `Write`, and batches closed without `Write`, must not see anything of the batch. -/
+
+inductive XOp where
+  | op (o : Op)            -- any operation of part 1 (incl. an atomic batch)
+  | bnew                   -- `NewBatch`
+  | bstage (b : BOp)       -- `batch.Set` / `batch.Delete` (`.bad` = refused entry)
+  | bwrite                 -- `batch.Write` (+ `Close`): apply the staged entries
+  | bclose                 -- `batch.Close` without writing
+  deriving Repr
+
+structure Staged (σ : Type) where
+  st : σ
+  staged : Option (List BOp)
+
+/-- a store machine extended with one batch object; `step` is the machine of part 1 -/
+def xstep {σ : Type} (step : σ → Op → σ × Res) (w : Staged σ) : XOp → Staged σ × Res
+  | .op o => let r := step w.st o; ({ w with st := r.1 }, r.2)
+  | .bnew => ({ w with staged := some [] }, .ok)
+  | .bstage b => match w.staged with
+    | some l => ({ w with staged := some (l ++ [b]) }, .ok)
+    | none => (w, .ok)
+  | .bwrite => match w.staged with
+    | some l => let r := step w.st (.batch l); ({ st := r.1, staged := none }, r.2)
+    | none => (w, .ok)
+  | .bclose => ({ w with staged := none }, .ok)
+
+def xrun {σ : Type} (step : σ → Op → σ × Res) : Staged σ → List XOp → List Res
+  | _, [] => []
+  | w, o :: os => (xstep step w o).2 :: xrun step (xstep step w o).1 os
+
+end IdenaModel.Store
